@@ -4,9 +4,10 @@
    the tables of [Denote.denote]; Proofs/PrintedDocSound.v proves that the decorated collector
    (Model/AnalysisDiag.v) pushes no diagnostic on the events of such a document.
 
-   [Denote.adoc_ok] already excludes what the code reports as an ERROR (and text mode).  [quiet_doc] excludes
+   [Denote.adoc_ok] already excludes what the code reports as an ERROR.  [quiet_doc] excludes
    what it reports as a WARNING - each clause names the warning:
-     - `>>` entries: with MODES no `[..]` key other than the three mode keys ("Unknown config metadata key");
+     - `>>` entries: with MODES no `[..]` key other than the three mode keys ("Unknown config metadata key") and no
+       switch to text mode (there every component makes the code warn "Ignoring .. in text mode", by design);
        an entry whose key is a standard key has a value check_std_entry accepts ("Unsupported value for
        key", [std_check] an oracle), and `time` does not meet `prep time` / `cook time` ("Time overridden");
      - components mode: the omitted text of a step block has no alphanumeric character ("Ignoring text in
@@ -18,7 +19,7 @@
      - a reference with a quantity agrees with its definition on text / number ("Text value may prevent
        calculating total amount") and, with ADVANCED_UNITS, its unit can be added to those of the definition
        and of the earlier references ("Incompatible units ..", [unit_pq] = the physical quantity of a unit).
-   Text mode ("Ignoring .. in text mode") is outside [adoc_ok] already. *)
+*)
 From CL Require Export Model.Denote.
 From CL Require Import Model.Parser Model.Diag Model.EventBridge Model.AnalysisLabels Model.AnalysisDiag.
 From CL Require Model.Events Model.Analysis.
@@ -85,7 +86,11 @@ Section Quiet.
 
   Definition qmeta_ok (ts : tstate) (b : block) : bool :=
     if is_config b then
-      match block_config b with Some (CfDefine _) | Some (CfDup _) => true | _ => false end
+      match block_config b with
+      | Some (CfDefine d) => negb (match d with Analysis.DMText => true | _ => false end)
+      | Some (CfDup _) => true
+      | _ => false
+      end
     else let (k, v) := meta_kv b in
          match std_key k with
          | None => true
